@@ -373,7 +373,11 @@ def read_manifest_file(path):
     """Read (and decompress by suffix) a Manifest file; returns text."""
     with open(path, 'rb') as f:
         data = f.read()
-    return decompress(data, compression_of(path)).decode('utf8')
+    text = decompress(data, compression_of(path)).decode('utf8')
+    if text.lstrip().startswith(BEGIN_SIGNED):
+        # cleartext-signed: the entries are those of the cleartext
+        text = split_cleartext(text)
+    return text
 
 
 HASHLIB_NAME = {
